@@ -211,8 +211,10 @@ void PolarGrid::initializeLineSplitting(std::optional<double> splitting_radius)
         if (number_smoother_circles_ < 3 && nr() > 5)
             number_smoother_circles_ = 3;
 
+        /* A grid with only two radii consists of circles only. */
+        number_smoother_circles_   = std::min(number_smoother_circles_, nr());
         length_smoother_radial_    = nr() - number_smoother_circles_;
-        smoother_splitting_radius_ = radius(number_smoother_circles_);
+        smoother_splitting_radius_ = (number_smoother_circles_ < nr()) ? radius(number_smoother_circles_) : radii_.back() + 1.0;
     }
 
     number_circular_smoother_nodes_ = number_smoother_circles_ * ntheta();
